@@ -5,7 +5,7 @@ import ScVerif.C16.Merge
 import ScVerif.C16.Free
 import ScVerif.C16.WireLemmas
 import ScVerif.C16.FloatIEEE
-import ScVerif.C16.Rounded
+import ScVerif.C16.RoundedF
 /-!
 Driver handler for C16.  Parsing/printing glue only (trusted base of the correspondence check).
 
@@ -376,16 +376,15 @@ def parseFin? (s : String) : Option Rat :=
 def showRat (q : Rat) : String := toString q.num ++ "/" ++ toString q.den
 
 /-- The rounded tier (Rounded.lean): the comparers' arithmetic over exact rationals with `rne64` applied where
-binary64 rounds.  `overflow` when an intermediate result leaves the finite binary64 range (not modelled). -/
+binary64 rounds; `far` is the whole comparer on any float values, overflow to ±Inf included (RoundedF.lean). -/
 def handleR? (toks : List String) : Option String :=
   match toks with
   | ["far", fr, mg, x, y] => do
-    let fr ← parseFin? fr
-    let mg ← parseFin? mg
-    let x ← parseFin? x
-    let y ← parseFin? y
-    if maxFloat64 < (rne64 (x - y)).abs || maxFloat64 < (rne64 (fr * min x.abs y.abs)).abs then pure "overflow"
-    else pure (showBool (floatApproxR rne64 fr mg x y))
+    let fr ← parseF? fr
+    let mg ← parseF? mg
+    let x ← parseF? x
+    let y ← parseF? y
+    pure (showBool (floatValueApproxR rne64 maxFloat64 fr mg (.sc (.float x)) (.sc (.float y))).1)
   | ["dpr", p, x, y] => do
     let p ← parseFin? p
     let x ← parseInt? x
